@@ -1362,17 +1362,25 @@ theorem get_mem {s : Store} {k : Bytes} {v : Bytes} {vs : List Bytes} (h : s.get
     exact this
   · cases h
 
-/-- W1 (strict: no two declared subnets with the same (map, network, length)) and W3 (no block other
-than `::/0` and `0.0.0.0/0` itself contains `::ffff:0:0/96`: no `::/n` with 0 < n ≤ 80, no
-`::8000:0:0/81` … `::fffe:0:0/95`) of the
-range-point table, for all maps at once. (Until the repair "only ::/0 and 0.0.0.0/0 are default
-routes for the rearranger" also W2, see `SubnetsRdbWFOld`.) -/
+/-- W1 (strict: no two declared subnets with the same (map, network, length)), for all maps at once:
+all the range-point table needs. (Until commit 828f037 also W2, until commits 277e200 / d84245a also W3,
+see `SubnetsRdbWFOld`, `SubnetsRdbWFW3`.) -/
 def SubnetsRdbWF (S : List SubnetDecl) : Prop :=
+  S.Pairwise (fun s t => ¬ (s.mapID = t.mapID ∧ s.net = t.net ∧ s.ones = t.ones))
+
+/-- the former condition: W1 (strict) and W3 (no block other than `::/0` and `0.0.0.0/0` itself contains
+`::ffff:0:0/96`: no `::/n` with 0 < n ≤ 80, no `::8000:0:0/81` … `::fffe:0:0/95`) -/
+def SubnetsRdbWFW3 (S : List SubnetDecl) : Prop :=
   S.Pairwise (fun s t => ¬ (s.mapID = t.mapID ∧ s.net = t.net ∧ s.ones = t.ones)) ∧
   ∀ s ∈ S, ¬ (s.net = 0 ∧ s.ones = 0) → ¬ (s.net = firstIPv4 ∧ s.ones = 96) →
     ¬ (s.net ≤ firstIPv4 ∧ afterIPv4 ≤ s.net + 2 ^ (128 - s.ones))
 
-/-- the former, stronger condition: W1 (strict), W2 (network `::` only as `::/0`, network
+instance (S : List SubnetDecl) : Decidable (SubnetsRdbWFW3 S) := by
+  unfold SubnetsRdbWFW3; infer_instance
+
+theorem SubnetsRdbWFW3.toWF {S : List SubnetDecl} (h : SubnetsRdbWFW3 S) : SubnetsRdbWF S := h.1
+
+/-- the oldest, strongest condition: W1 (strict), W2 (network `::` only as `::/0`, network
 `::ffff:0:0` only as `0.0.0.0/0`) and W3 -/
 def SubnetsRdbWFOld (S : List SubnetDecl) : Prop :=
   S.Pairwise (fun s t => ¬ (s.mapID = t.mapID ∧ s.net = t.net ∧ s.ones = t.ones)) ∧
@@ -1382,9 +1390,11 @@ def SubnetsRdbWFOld (S : List SubnetDecl) : Prop :=
 instance (S : List SubnetDecl) : Decidable (SubnetsRdbWFOld S) := by
   unfold SubnetsRdbWFOld; infer_instance
 
-theorem SubnetsRdbWFOld.toWF {S : List SubnetDecl} (h : SubnetsRdbWFOld S) : SubnetsRdbWF S :=
+theorem SubnetsRdbWFOld.toW3 {S : List SubnetDecl} (h : SubnetsRdbWFOld S) : SubnetsRdbWFW3 S :=
   ⟨h.1, fun s hs h0 h4 => (h.2 s hs).2.2 (fun e => h0 ⟨e, (h.2 s hs).1 e⟩)
     (fun e => h4 ⟨e, (h.2 s hs).2.1 e⟩)⟩
+
+theorem SubnetsRdbWFOld.toWF {S : List SubnetDecl} (h : SubnetsRdbWFOld S) : SubnetsRdbWF S := h.1
 
 instance (S : List SubnetDecl) : Decidable (SubnetsRdbWF S) := by unfold SubnetsRdbWF; infer_instance
 
@@ -1412,7 +1422,7 @@ theorem tableKVs_pairwise (m : Bytes) {P : List Point} (hwf : Lpm.TableWF P) :
   exact hall.imp fun {u v} h =>
     Lpm.pointKV_fst_ne m (hwf.ip_lt u h.1) (hwf.ip_lt v h.2.1) (hwf.ml_lt u h.1) (hwf.ml_lt v h.2.1) h.2.2
 
-/-- the declared subnets of one map satisfy W0, W1, W3 -/
+/-- the declared subnets of one map satisfy W0, W1 -/
 theorem subsWF_filter (subs : List Subnet) (hok : ∀ x ∈ subs, SubnetOK x)
     (hwf : SubnetsRdbWF (subs.map Lpm.declOf)) (m : Bytes) :
     Lpm.SubsWF ((subs.filter (·.lmap = m)).map Lpm.declOf) := by
@@ -1421,7 +1431,6 @@ theorem subsWF_filter (subs : List Subnet) (hok : ∀ x ∈ subs, SubnetOK x)
     obtain ⟨x, hx, rfl⟩ := List.mem_map.1 hs
     rw [List.mem_filter] at hx
     exact ⟨x, hx.1, by simpa using hx.2, rfl⟩
-  have hall := hwf.2
   constructor
   · intro s hs
     obtain ⟨x, hx, _, rfl⟩ := hmem s hs
@@ -1433,7 +1442,7 @@ theorem subsWF_filter (subs : List Subnet) (hok : ∀ x ∈ subs, SubnetOK x)
     obtain ⟨x, hx, _, rfl⟩ := hmem s hs
     exact Lpm.aligned_of_masked (hok x hx).1 (hok x hx).2.1 (hok x hx).2.2.1
   · rw [List.pairwise_map]
-    have h1 := hwf.1
+    have h1 : (subs.map Lpm.declOf).Pairwise _ := hwf
     rw [List.pairwise_map] at h1
     refine (h1.filter _).imp_of_mem ?_
     intro a b ha hb hab hc
@@ -1441,9 +1450,6 @@ theorem subsWF_filter (subs : List Subnet) (hok : ∀ x ∈ subs, SubnetOK x)
     have ea : a.lmap = m := by simpa using ha.2
     have eb : b.lmap = m := by simpa using hb.2
     exact hab ⟨ea.trans eb.symm, hc.1, hc.2⟩
-  · intro s hs
-    obtain ⟨x, hx, _, rfl⟩ := hmem s hs
-    exact hall (Lpm.declOf x) (List.mem_map.2 ⟨x, hx, rfl⟩)
   · intro s hs
     obtain ⟨x, hx, _, rfl⟩ := hmem s hs
     show (x.lo.getD [0, 0]).length = 2
@@ -1783,7 +1789,7 @@ theorem getLocationRdb_rep (store : Store) (z : Zone) (subs : List Subnet)
 /-- **RocksDB (v1 keys).** On the store `compile .rdbV1` builds, `GetLocationByMap` of the RocksDB
 driver returns `Spec.lpm`'s answer on the declared subnets, for every 2-byte map id (with or without
 subnets) and every client whose masked address is masked to its prefix length (W4).
-Forced: W1 (strict), W3 on the declared subnets (`SubnetsRdbWF`); see `Props/C03` §5. -/
+Forced: W1 (strict) on the declared subnets (`SubnetsRdbWF`); see `Props/C03` §6. -/
 theorem getLocationRdb_file (svcb : SvcbFn) (lines : List Bytes) (store : Store) (z : Zone)
     (hc : compile .rdbV1 svcb lines = some store) (hz : zoneOf lines = some z)
     (hwf : SubnetsRdbWF z.subnets) (m : Bytes) (hm : m.length = 2) (c : ClientNet)
